@@ -108,4 +108,10 @@ def extra_checks(ctx, cases_, impl_lines, model_lines_):
                                             for a in apps.values())
         except Exception:
             return False
-    return xcheck.borrow(ctx, "C14", "an on-start-up trigger declared in a configuration document", has_onstartup, n=120)
+    res = xcheck.borrow(ctx, "C14", "an on-start-up trigger declared in a configuration document", has_onstartup, n=120)
+    if res:
+        return res
+    # "the pre-existing content becomes the newest archive" - at the place the pattern names at the time of the roll
+    # (the first record), also when the process has changed its working directory since the roller was built
+    return xcheck.borrow(ctx, "C07", "the start-up roll puts the archive where the pattern says at that moment",
+                         lambda c: any(isinstance(o, list) and o and o[0] == 4 for o in c[8]), n=120, seed_salt=47)
